@@ -1050,6 +1050,15 @@ func genAV1C09(x *Ctx) {
 		c.Tag("literal")
 		av1DepHist(c, [][]byte{nil, {}, {0x10}, {0x10, 0x30}, {0x18, 0x0a, 0x00}})
 	})
+	// OBU elements that carry obu_has_size_field: right size, wrong size, broken LEB128, size field in a
+	// fragmented OBU (validated against the last fragment's length), temporal delimiter / tile list last
+	x.Case(func(c *Case) {
+		c.Tag("literal")
+		av1DepHist(c, [][]byte{{0x10, 0x32, 0x01, 0xaa}, {0x10, 0x32, 0x02, 0xaa}, {0x10, 0x32, 0x80},
+			{0x20, 0x03, 0x32, 0x01, 0xaa, 0x30, 0xbb}, {0x00, 0x03, 0x32, 0x01, 0xaa, 0x02, 0x30, 0xbb},
+			{0x50, 0x32, 0x02, 0xaa}, {0x90, 0xbb}, {0x50, 0x36, 0x08, 0x02, 0xaa}, {0x90, 0xbb},
+			{0x10, 0x12, 0x00}, {0x20, 0x01, 0x30, 0x12}, {0x00, 0x01, 0x30, 0x01, 0x42}, {0x30, 0x01, 0x30, 0x01, 0x30}})
+	})
 	const run = 32
 	for i := 0; i < len(all); i += run {
 		j := i + run
